@@ -541,6 +541,15 @@ func (s *projState) judgeReport(res *Result, c *ActCase, ai int, a Act, obs *Obs
 			res.violate("C20", "json-skipped-flag-is-true-to-the-run", sig, "act%d: task %s reported skipped=%v but its commands ran=%v", ai, r.Task, r.Skipped, ran)
 			return true
 		}
+		if t.NCmd == 0 && r.Skipped && (!t.HasFileDeps() || hasFlag(a.Args, "--force")) {
+			// a task without commands leaves no marker, but it cannot have been skipped as up to date
+			// when it has no file dependencies or the run was forced
+			res.violate("C20", "json-skipped-flag-is-true-to-the-run", sig, "act%d: task %s (no commands, file deps=%v, force=%v) is reported skipped although it cannot be up to date", ai, r.Task, t.HasFileDeps(), hasFlag(a.Args, "--force"))
+			return true
+		}
+		if t.NCmd == 0 {
+			res.count("probe:task_without_commands_in_report")
+		}
 		if r.Skipped {
 			nskip++
 			if len(r.Results) != 0 {
